@@ -115,7 +115,7 @@ impl Gen<'_> {
             let r = self.rng.below(100);
             let mut planted = false;
             let mut d: Option<Decl> = None;
-            if r < 20 && self.cfg.allow_override && !omitting.is_empty() {
+            if r < 35 && self.cfg.allow_override && !omitting.is_empty() {
                 let k = self.rng.pick(&omitting).clone();
                 let vs = self.versions_of(&k.group, &k.artifact);
                 if !vs.is_empty() {
